@@ -12,7 +12,7 @@
 #include "vh_noinline_end.h"
 using namespace quill;
 using namespace quill::detail;
-extern "C" int64_t vll_tz_offset;
+extern "C" int64_t vll_tz_offset, vll_tz_dst_at, vll_tz_dst_delta;
 
 #ifndef NCALLS
   #define NCALLS 3
@@ -149,6 +149,11 @@ extern "C" void h_sft()
   s->_time_zone = local ? Timezone::LocalTime : Timezone::GmtTime;
   s->_fallback_formatted.reserve(40);
   int64_t const base = 1000000000 - 1000000000 % 86400 + 86400;     // a midnight in 2001: ten-digit epochs
+#ifdef DST
+  // one daylight-saving transition somewhere in the window, at a quarter-hour instant, one hour forward or back
+  vll_tz_dst_at = base + static_cast<int64_t>(vnd_range(0, WINDOW / 900)) * 900;
+  vll_tz_dst_delta = vnd_bool() ? 3600 : -3600;
+#endif
   for (uint32_t i = 0; i < NCALLS; i++)
   {
     int64_t t = base + static_cast<int64_t>(vnd_range(0, WINDOW - 1));     // any second of the window, any order
